@@ -265,75 +265,102 @@ def gen_congruence(tier, rng):
 
 
 # ----------------------------------------------------------------------------- cp_permute_factors
+def permute_entries(call):
+    """the (weights, factors, sigma) of the tensors handed to cp_permute_factors, in call order"""
+    me = (call["w"], call["Bs"], call.get("sigma"))
+    if not call.get("as_list"):
+        return [me]
+    other = (call["w_other"], call["Bs_other"], call.get("sigma_other"))
+    return [me, other] if call.get("pick", 0) == 0 else [other, me]
+
+
 def call_permute(call):
     import tensorly as tl
     from tensorly.cp_tensor import CPTensor, cp_permute_factors
     ref = CPTensor((tl.tensor(call["wref"].copy()), [tl.tensor(a.copy()) for a in call["As"]]))
-    t = CPTensor((tl.tensor(call["w"].copy()), [tl.tensor(b.copy()) for b in call["Bs"]]))
+    ts = [CPTensor((tl.tensor(w.copy()), [tl.tensor(b.copy()) for b in Bs])) for (w, Bs, _) in permute_entries(call)]
     if call.get("as_list"):
-        # a list of two DIFFERENT tensors; the one under test sits at position `pick`
-        other = CPTensor((tl.tensor(call["w_other"].copy()), [tl.tensor(b.copy()) for b in call["Bs_other"]]))
-        pick = call.get("pick", 0)
-        lst = [t, other] if pick == 0 else [other, t]
-        st, v = C.call_impl(cp_permute_factors, ref, lst)
-        if st == "ok":
-            if not (isinstance(v[0], list) and len(v[0]) == 2 and len(v[1]) == 2):
-                return "ok", (None, None)
-            v = (v[0][pick], [v[1][pick]])
+        st, v = C.call_impl(cp_permute_factors, ref, ts)     # a list of two DIFFERENT tensors
+        if st == "ok" and not (isinstance(v[0], list) and len(v[0]) == len(ts) and len(v[1]) == len(ts)):
+            return "ok", (None, None)
         return st, v
-    return C.call_impl(cp_permute_factors, ref, t)
+    st, v = C.call_impl(cp_permute_factors, ref, ts[0])
+    if st == "ok":
+        v = ([v[0]], v[1])
+    return st, v
 
 
-def pred_permute(call, out):
-    import tensorly as tl
-    st, v = out
-    if st != "ok":
-        return [("C20_permute_defined", f"valid input raised: {v}")]
-    pt, perms = v
-    if pt is None:
-        return [("C20_permute_aligned", "a list of two CP tensors did not yield two permuted tensors and two permutations")]
-    perm = [int(x) for x in np.asarray(perms[0]).ravel()]
-    r = call["As"][0].shape[1]
+def pred_permute_one(As, Bs, w, sigma, pt, perm, tag):
+    r = As[0].shape[1]
     fails = []
     if sorted(perm) != list(range(r)):
-        return [("C20_permute_aligned", f"returned permutation {perm} is not a permutation")]
+        return [("C20_permute_aligned", f"{tag}returned permutation {perm} is not a permutation")]
     w2, f2 = pt
-    if not np.array_equal(np.asarray(w2), call["w"][perm]):
-        fails.append(("C20_permute_aligned", "weights are not the input weights permuted by the returned permutation"))
-    for m, (f, b) in enumerate(zip(f2, call["Bs"])):
+    if not np.array_equal(np.asarray(w2), w[perm]):
+        fails.append(("C20_permute_aligned", f"{tag}weights are not the input weights permuted by the returned permutation"))
+    if len(f2) != len(Bs):
+        return fails + [("C20_permute_aligned", f"{tag}{len(f2)} factors returned for {len(Bs)}")]
+    for m, (f, b) in enumerate(zip(f2, Bs)):
         if not np.array_equal(np.asarray(f), b[:, perm]):
-            fails.append(("C20_permute_aligned", f"factor {m} is not the input factor with columns permuted by the returned permutation"))
+            fails.append(("C20_permute_aligned", f"{tag}factor {m} is not the input factor with columns permuted by the returned permutation"))
     # optimal alignment with the reference (all r! matchings)
-    cm = ref_congruence_matrix(call["As"], call["Bs"], True)
+    cm = ref_congruence_matrix(As, Bs, True)
     val = float(np.mean([cm[i, perm[i]] for i in range(r)]))
     best = max(float(np.mean([cm[i, p[i]] for i in range(r)])) for p in itertools.permutations(range(r)))
     if val < best - 1e-9:
-        fails.append(("C20_permute_aligned", f"alignment {val!r} of the returned permutation below the optimum {best!r}"))
-    if call.get("sigma") is not None and not fails:
-        for m, (f, a) in enumerate(zip(f2, call["As"])):
+        fails.append(("C20_permute_aligned", f"{tag}alignment {val!r} of the returned permutation below the optimum {best!r}"))
+    if sigma is not None and not fails:
+        # collinearity: component i of the result is a multiple of component i of the reference (rank of [f_i a_i] is 1)
+        for m, (f, a) in enumerate(zip(f2, As)):
             f = np.asarray(f)
             for i in range(r):
                 cs = abs(float(f[:, i] @ a[:, i])) / math.sqrt(float(f[:, i] @ f[:, i]) * float(a[:, i] @ a[:, i]))
                 if abs(cs - 1) > 1e-9:
-                    fails.append(("C20_permute_aligned", f"component {i} of mode {m} is not aligned with the reference (|cos|={cs!r})"))
+                    fails.append(("C20_permute_aligned", f"{tag}component {i} of mode {m} is not collinear with the reference (|cos|={cs!r})"))
                     break
     return fails
 
 
+def pred_permute(call, out):
+    st, v = out
+    if st != "ok":
+        return [("C20_permute_defined", f"valid input raised: {v}")]
+    pts, perms = v
+    if pts is None:
+        return [("C20_permute_aligned", "a list of two CP tensors did not yield two permuted tensors and two permutations")]
+    fails = []
+    ents = permute_entries(call)
+    for j, ((w, Bs, sigma), pt, pm) in enumerate(zip(ents, pts, perms)):
+        perm = [int(x) for x in np.asarray(pm).ravel()]
+        fails += pred_permute_one(call["As"], Bs, w, sigma, pt, perm, f"tensor {j} of {len(ents)}: " if len(ents) > 1 else "")
+    return fails
+
+
+def out_lit(pt, pm):
+    w2, f2 = pt
+    perm = [int(x) for x in np.asarray(pm).ravel()]
+    return f"({C.q_list([float(x) for x in np.asarray(w2).ravel()])}, {mats_lit([np.asarray(f) for f in f2])}, {C.nat_list(perm)})"
+
+
 def emit_permute(cid, call, out):
     st, v = out
-    As, Bs = call["As"], call["Bs"]
-    nas = [col_norms(a) for a in As]; nbs = [col_norms(b) for b in Bs]
-    if st == "ok" and v[0] is None:
-        impl = "(Ok ((@nil Q), (@nil (mat Q)), (@nil nat)))"
-    elif st == "ok":
-        pt, perms = v
-        w2, f2 = pt
-        perm = [int(x) for x in np.asarray(perms[0]).ravel()]
-        impl = f"(Ok ({C.q_list([float(x) for x in np.asarray(w2).ravel()])}, {mats_lit([np.asarray(f) for f in f2])}, {C.nat_list(perm)}))"
-    else:
-        impl = "Err"
-    return (f"({cid}%nat, KPermute {mats_lit(As)} {mats_lit(Bs)} {C.q_list([float(x) for x in call['w']])} "
+    As = call["As"]
+    nas = [col_norms(a) for a in As]
+    ents = permute_entries(call)
+    if call.get("as_list"):
+        ts = "[" + "; ".join(f"({C.q_list([float(x) for x in w])}, {mats_lit(Bs)}, {qlists_lit([col_norms(b) for b in Bs])})"
+                             for (w, Bs, _) in ents) + "]"
+        if st == "ok" and v[0] is None:
+            impl = "(Ok (@nil (list Q * list (mat Q) * list nat)))"
+        elif st == "ok":
+            impl = "(Ok [" + "; ".join(out_lit(pt, pm) for pt, pm in zip(v[0], v[1])) + "])"
+        else:
+            impl = "Err"
+        return f"({cid}%nat, KPermuteList {mats_lit(As)} {qlists_lit(nas)} {ts} {impl})"
+    (w, Bs, _) = ents[0]
+    nbs = [col_norms(b) for b in Bs]
+    impl = f"(Ok {out_lit(v[0][0], v[1][0])})" if st == "ok" else "Err"
+    return (f"({cid}%nat, KPermute {mats_lit(As)} {mats_lit(Bs)} {C.q_list([float(x) for x in w])} "
             f"{qlists_lit(nas)} {qlists_lit(nbs)} {impl})")
 
 
@@ -351,7 +378,7 @@ def gen_permute(tier, rng):
         extra = {}
         if as_list:     # the second tensor of the list: another equivalent copy with its own permutation and weights
             s2 = list(range(r)); rng.shuffle(s2)
-            extra = dict(Bs_other=equivalent_copy(A, s2, scalings(rng, r, nm, "signed")),
+            extra = dict(sigma_other=s2, Bs_other=equivalent_copy(A, s2, scalings(rng, r, nm, "signed")),
                          w_other=np.array([rng.choice([0.25, 1.5, 4.0, -2.0]) for _ in range(r)]))
         if (k // 2) % 3 != 2:
             sigma = list(range(r)); rng.shuffle(sigma)
